@@ -3,3 +3,4 @@ import AtsimModel.Driver.Eam
 import AtsimModel.Driver.Range
 import AtsimModel.Driver.Cutoff
 import AtsimModel.Driver.Expr
+import AtsimModel.Driver.Lang
